@@ -89,6 +89,11 @@ func (s *Server) handleConnection(conn net.Conn) {
 		}
 	}
 
+	// the reply has to fit into one message part, otherwise clients
+	// (including our own) can not decode it: "NO " + message
+	if maxlen := MaxRequestLength - 3; len(resp.Message) > maxlen {
+		resp.Message = resp.Message[:maxlen]
+	}
 	resp.Encode(conn) //nolint:errcheck
 }
 
